@@ -12,7 +12,11 @@ Col(seq) == seq   \* a column: sequence indexed by node; inner nodes carry "N"
 CQ(id, newick, par, leafname, edgename, inst, rootinst, s, qpow, bprobs, mult, cols, nbrute, normalise) ==
     [id |-> id, newick |-> newick, par |-> par, leafname |-> leafname, edgename |-> edgename, inst |-> inst,
      rootinst |-> rootinst, s |-> s, qpow |-> qpow, bprobs |-> bprobs, mult |-> mult, cols |-> cols, nbrute |-> nbrute, normalise |-> normalise,
-     hmm |-> FALSE, switch |-> Zero, bininst |-> <<>>]
+     hmm |-> FALSE, switch |-> Zero, bininst |-> <<>>, loci |-> FALSE, loccols |-> <<>>]
+(* several loci sharing the tree: locus l uses instance locinst[l] (base s^mult[l]) on its own columns loccols[l] *)
+CL(id, newick, par, leafname, edgename, inst, rootinst, s, qpow, mult, locinst, loccols, normalise) ==
+    [CQ(id, newick, par, leafname, edgename, inst, rootinst, s, qpow, <<>>, mult, <<>>, 0, normalise)
+        EXCEPT !.loci = TRUE, !.bininst = locinst, !.loccols = loccols]
 (* site classes along a hidden Markov chain; classes differ in a model parameter (bininst).  The branch LENGTH is shared by the
    classes, so a class whose instance has another expected rate sees another base: q_b = s^mult[b] with
    mult[b] * mu_b * n1_b = qpow * mu_edge * n1_edge (checked: BinLengthsConsistent) *)
@@ -87,7 +91,13 @@ H2eq == CH("t2-K80-hmm-equal", "(a,b)", <<0, 1, 1>>, <<"", "a", "b">>, <<"", "a"
          <<One, One, Half>>, 3, <<R(1,2), R(1,2)>>, <<5, 3>>, <<1, 2>>, R(1,2),
          ColsOf(3, {2, 3}, << <<>>, <<"A", "T">>, <<"G", "T">> >>), FALSE)
 
+(* two loci on a 3-tip star: locus x is K80 kappa 3, locus y is JC69 (kappa 1); the loci have different columns and
+   different numbers of them *)
+L3 == CL("star3-K80-2loci", "(a,b,c)", <<0, 1, 1, 1>>, <<"", "a", "b", "c">>, <<"", "a", "b", "c">>, <<0, 2, 2, 2>>, 1,
+         <<One, One, Half, Half>>, 3, <<3, 5>>, <<2, 1>>,
+         << ColsOf(4, {2, 3, 4}, << <<>>, <<"A", "C", "G", "T", "A">>, <<"G", "C", "G", "T", "R">>, <<"A", "T", "G", "C", "A">> >>),
+            ColsOf(4, {2, 3, 4}, << <<>>, <<"T", "T", "C">>, <<"C", "T", "N">>, <<"T", "A", "C">> >>) >>, TRUE)
 HmmConfigs == <<H2, H3, H2eq>>
-QuickConfigs == <<T2, S3jc, R3hk, R3sc, S3bins, T2bins, H2, H3, H2eq>>
-AllConfigs == <<T2, S3jc, S3tn, R3hk, R3sc, B4k8, P4f, S4jc, S3bins, T2bins, H2, H3, H2eq>>
+QuickConfigs == <<T2, S3jc, R3hk, R3sc, S3bins, T2bins, H2, H3, H2eq, L3>>
+AllConfigs == <<T2, S3jc, S3tn, R3hk, R3sc, B4k8, P4f, S4jc, S3bins, T2bins, H2, H3, H2eq, L3>>
 =============================================================================
